@@ -169,6 +169,20 @@ Proof.
 Qed.
 Print Assumptions C10_relay_hi_writes_as_generated.
 
+(* time limits and margin functions of the model are the ones of the source: the translator extracts the literals of
+   supla_esp_gpio_rs_timer_cb by pattern (reporting period, 10-minute limit tested on both counters, power-detection window) and probes
+   supla_esp_gpio_rs_set_time_margin / supla_esp_gpio_rs_time_margin as functions; a changed limit, a dropped test or a moved boundary
+   changes the generated constants and this theorem no longer checks *)
+Theorem C10_limits_as_generated :
+  REPORT_PERIOD_US = REPORT_PERIOD_SRC /\ TEN_MINUTES_US = TEN_MINUTES_SRC /\ TEN_MINUTES_TESTS = 2 /\ POWER_DETECT_US = POWER_DETECT_SRC /\
+  set_time_margin (-1) = MARGIN_OF_M1 /\ set_time_margin 0 = MARGIN_OF_0 /\ set_time_margin 100 = MARGIN_OF_100 /\
+  set_time_margin 101 = MARGIN_OF_101 /\ set_time_margin 110 = MARGIN_OF_110 /\
+  time_margin 1000 (TIME_MARGIN_5PCT_OF_1S_ENDS - 1) 5 = true /\ time_margin 1000 TIME_MARGIN_5PCT_OF_1S_ENDS 5 = false /\
+  time_margin 0 0 5 = negb (TIME_MARGIN_FULL0 =? 0) /\
+  AUTOCAL_MAX_MS = 590000 /\ AUTOCAL_MIN_MS = 500 /\ START_DELAY_MS = 1000 /\ STOP_DELAY_MS = 500.
+Proof. repeat split; reflexivity. Qed.
+Print Assumptions C10_limits_as_generated.
+
 (* ---------- the same theorems for the bit-exact IEEE binary64 instance `fops`, without the hypothesis fp_ok (C09/FloatFacts.v) ---------- *)
 Theorem C10_bounded_power_counted_fops : forall up k tau d evs,
   wfk k -> 0 <= tau <= 1000000 -> Forall (fun e => 0 < fst e <= tau) evs ->
